@@ -72,6 +72,7 @@ static bool unchanged(const Opd& o)
 
 static bool same_double(double x, double y) { return (x != x && y != y) || std::memcmp(&x, &y, sizeof x) == 0 || (x == y && x != 0.0); }
 
+#ifndef VX_UNARY
 extern "C" void vx_binop()
 {
   static Context& ctx = *new Context(1, 2);
@@ -214,6 +215,8 @@ extern "C" void vx_binop()
 #endif
 }
 
+#endif /* !VX_UNARY */
+
 // C12-K3: the text of an operator node is `[(] a1 <space> OP <space> a2 [)]` with OP the operator's own spelling and
 // parentheses exactly when the source had them - so that printing a compiled program and loading it back
 // rebuilds the same node.
@@ -224,7 +227,28 @@ struct TextExpr : Expression {
   const Type& type(Context&) const override { return t; }
   Value& value(Context&) const override { static Value v; return v; }
 };
-#ifdef VX_OPID
+#if defined(VX_OPID) && defined(VX_UNARY)
+// unary operator nodes: `[(] OP a1 [)]`
+extern "C" void vx_unparse()
+{
+  static Context& ctx = *new Context(1, 2);
+  static TextExpr a; a.txt = "x";
+  VX_OP* op = new VX_OP(&a);
+  bool enc = in_bool(0);
+  op->enclosed(enc);
+  std::string s = op->unparse(ctx);
+  VX_WITNESS();
+  const char* sp = Operator::OPVALS[VX_OPID];
+  std::string e;
+  if (enc) e.push_back('(');
+  e.append(sp);
+  if (std::strlen(sp) > 1) e.push_back(' ');       /* word operators (not) are separated from their operand */
+  e.append("x");
+  if (enc) e.push_back(')');
+  verif_assert(s.size() >= 2 && s[0] == (enc ? '(' : sp[0]) && (s[s.size() - 1] == ')') == enc, "C12: unary operator node is parenthesised iff the source was");
+  verif_assert(s.find("x") != std::string::npos && s.find(sp) != std::string::npos, "C12: unary operator node prints its own spelling and its operand");
+}
+#elif defined(VX_OPID)
 extern "C" void vx_unparse()
 {
   static Context& ctx = *new Context(1, 2);
